@@ -838,10 +838,19 @@ def r_validated_before_use(ck, P, rid):
     V = common.validate_closure(P)
     N = defaultdict(dict)
 
+    # VAL[g] = parameters that g validates on every path on which they are non-NULL (wrappers around the validate function)
+    VAL = defaultdict(set)
+
     def arrivals(f, k, x):
         """nullness states of param k ({None, True, False}) in which x is reached along a path that avoids validate (param k);
         branches on `param k == NULL` are followed consistently"""
-        is_val = lambda c: c.op == 'call' and c.callee == v.name and c.a and f.strip_casts(c.a[0])[:2] == ['a', k]
+        def is_val(c):
+            if c.op != 'call' or not isinstance(c.callee, str):
+                return False
+            if c.callee == v.name:
+                return bool(c.a) and f.strip_casts(c.a[0])[:2] == ['a', k]
+            g_ = P.resolve(f, c.callee)
+            return g_ is not None and any(j < len(c.a) and f.strip_casts(c.a[j])[:2] == ['a', k] for j in VAL.get(g_, ()))
         out = set()
         seen = set(); work = [(0, None)]
         while work:
@@ -871,6 +880,19 @@ def r_validated_before_use(ck, P, rid):
                 work.append((s_, nul))
         return out
 
+    # wrappers: a function validates parameter k when no path from its entry to a return avoids a validating call (NULL side excepted)
+    changed = True
+    while changed:
+        changed = False
+        for f in P.functions():
+            if f in V or not any(c.callee == v.name or (isinstance(c.callee, str) and VAL.get(P.resolve(f, c.callee))) for c in f.calls()):
+                continue
+            for k, (pn, pt) in enumerate(f.params):
+                if 'image' not in pt or k in VAL[f]:
+                    continue
+                rets = f.rets()
+                if rets and all(not (arrivals(f, k, t) - {True}) for t in rets):
+                    VAL[f].add(k); changed = True
     # N[f][k] = (reason, only_when_non_null)
     for f in P.functions():
         if f in V:
